@@ -6,3 +6,10 @@ pub fn vfirst_from<T>(v: &Vec<T>, a: usize) -> (r: Option<&T>)
 {
     if a < v.len() { Some(&v[a]) } else { None }
 }
+
+// `v.into_iter().next()` (rule R8intonext) for a Vec of Copy elements: the first element, if any.  Verified helper.
+pub fn vinto_first<T: Copy>(v: Vec<T>) -> (r: Option<T>)
+    ensures r == (if v@.len() > 0 { Some(v@[0]) } else { None::<T> }),
+{
+    if v.len() > 0 { Some(v[0]) } else { None }
+}
